@@ -1,0 +1,31 @@
+// SPDX-FileCopyrightText: 2026 The Pion community <https://pion.ly>
+// SPDX-License-Identifier: MIT
+
+//go:build verif && verif_origin && !js
+
+package webrtc
+
+import (
+	"sync/atomic"
+
+	"github.com/pion/sdp/v3"
+)
+
+// VerifOrigin is a saved SDP origin as PeerConnection keeps it (property C11).
+type VerifOrigin struct {
+	o sdp.Origin
+}
+
+// Update runs updateSDPOrigin for a fresh description carrying
+// (sessionID, sessionVersion) and returns what the description carries afterwards.
+func (v *VerifOrigin) Update(sessionID, sessionVersion uint64) (uint64, uint64) {
+	d := &sdp.SessionDescription{Origin: sdp.Origin{SessionID: sessionID, SessionVersion: sessionVersion}}
+	updateSDPOrigin(&v.o, d)
+
+	return d.Origin.SessionID, d.Origin.SessionVersion
+}
+
+// State reads the saved (session id, session version).
+func (v *VerifOrigin) State() (uint64, uint64) {
+	return atomic.LoadUint64(&v.o.SessionID), atomic.LoadUint64(&v.o.SessionVersion)
+}
